@@ -209,6 +209,12 @@ func runC13(t *testing.T, spec RunSpec) *RunResult {
 		}
 	}
 	res.Nontrivial = hi > 0
+	if cfg.Enum {
+		if res.Probes == nil {
+			res.Probes = map[string]int{}
+		}
+		res.Probes["enumerated-boundary-sessions(of-455)"]++
+	}
 	res.Fingerprint = fmt.Sprintf("%v/%s", cfg.IDs, res.Fingerprint)
 	return res
 }
